@@ -2,6 +2,8 @@
 # usage: matrix_parallel.sh [jobs]  -- every kept seed against the quick check of its own property, each property in
 # its own scratch worktree of /repo HEAD (/tmp/seed4/<prop>, VCHECK_REPO), properties in parallel
 jobs=${1:-7}
+# the scratch worktrees are created on demand (and must be removed afterwards: git -C /repo worktree remove --force /tmp/seed4/Cxx)
+for i in $(seq -w 1 20); do [ -d /tmp/seed4/C$i ] || { mkdir -p /tmp/seed4; git -C /repo worktree add -q --detach /tmp/seed4/C$i HEAD; }; done
 run_prop() {
   p=$1
   for d in /verif/seeded/${p}?; do
